@@ -54,8 +54,12 @@ class St:
 
     def wellformed(self):
         """representation invariant assumed of every reachable state (checked to be inductive by C01's step check):
-        stored CAS values are non-zero, timestamps are not in the future, clock and counter far from wrap-around"""
-        cs = [z3.ULT(self.now, 1 << 40), z3.UGE(self.cas_id, 1), z3.ULT(self.cas_id, 1 << 62)]
+        stored CAS values are non-zero, timestamps are not in the future, clock and counter far from wrap-around (counter < 2^63 + 2^62: see the counter obligation in store_checks)"""
+        if getattr(self, 'free_extras', False):
+            # history checks (props/bmc.py): reachability is defined by the initial state and the transitions alone; only the
+            # stated bounds on clock and value length remain
+            return [z3.ULT(self.now, 1 << 40)] + [z3.ULT(vlen(self.val[i]), 1 << 31) for i in range(self.K)]
+        cs = [z3.ULT(self.now, 1 << 40), z3.UGE(self.cas_id, 1), z3.ULT(self.cas_id, (1 << 63) + (1 << 62))]
         for i in range(self.K):
             cs += [z3.Implies(self.present[i], z3.And(self.cas[i] != 0, z3.ULE(self.ts[i], self.now)))]
             cs += [z3.ULT(vlen(self.val[i]), 1 << 31)]   # stated bound: stored values shorter than 2 GiB
